@@ -225,6 +225,15 @@ pub fn special_shapes(c: &mut Ctx) -> Vec<(String, String)> {
         let r = c.assign(&format!("elide_set {} rem {} {}", host, act, core));
         if c.is_ok(&r) { out.push((format!("decorated-assertion-core-{}", &act[..5]), r)); }
     }
+    // a plain node whose subject alone is obscured, its assertions readable
+    {
+        let plain = { let s1 = gen_leaf(c, &cfg); let a1 = gen_assertion(c, &cfg, 0); let a2 = gen_assertion(c, &cfg, 0); let n = c.assign(&format!("add {} {}", s1, a1)); let n2 = c.assign(&format!("add {} {}", n, a2)); if c.is_ok(&n2) { n2 } else { n } };
+        let subj = c.assign(&format!("subject {}", plain));
+        for act in ["elide".to_string(), "compress".to_string(), format!("encrypt:{}", KEY2)] {
+            let r = c.assign(&format!("elide_set {} rem {} {}", plain, act, subj));
+            if c.is_ok(&r) { out.push((format!("node-with-{}-subject", &act[..5]), r)); }
+        }
+    }
     let twins = c.assign(&format!("add {} {}", host, core));
     if c.is_ok(&twins) { out.push(("twin-assertions".into(), twins)); }
     // node whose subject is a node: compress the inner node, add to it, inflate the subject again
